@@ -252,7 +252,7 @@ pub fn run(tier: Tier, shard: Shard, rep: &mut Report) {
         was failed; no descriptor left open; re-issuing the operation succeeds with the fault-free effect. Every case is distinct."
         .into();
     rep.assumptions = vec![
-        "one fault per operation (two in thorough for operations with <= 25 calls); the injected errnos are those of DESIGN.md's table".into(),
+        "one fault per operation (two in thorough for operations with <= 80 calls); the injected errnos are those of DESIGN.md's table".into(),
         "a lookup or touch whose open is answered ENOENT/ESTALE may report absence (documented classification)".into(),
     ];
     let scns = scn::all_scenarios();
@@ -271,7 +271,7 @@ pub fn run(tier: Tier, shard: Shard, rep: &mut Report) {
                 }
             }
         }
-        if tier == Tier::Thorough && n <= 25 {
+        if tier == Tier::Thorough && n <= 80 {
             for k1 in 0..n {
                 for a1 in plausible(&trace[k1], false).into_iter().take(2) {
                     for k2 in (k1 + 1)..n {
